@@ -47,6 +47,33 @@ def find_defs(objs, last, sig=None):
     return found
 
 
+def is_accessor(node):
+    """inline accessor: body is one `return <expr without calls>;` or one `field = <expr without calls>;`"""
+    body = [c for c in node.get("inner", []) if c.get("kind") == "CompoundStmt"]
+    if not body or len(body[0].get("inner", [])) != 1:
+        return False
+    st = body[0]["inner"][0]
+
+    def calls(n):
+        k = n.get("kind")
+        if k in ("CallExpr", "CXXNewExpr", "CXXThrowExpr", "LambdaExpr", "CXXConstructExpr") and \
+                not (k == "CXXConstructExpr" and len(n.get("inner", [])) <= 1):
+            return True
+        if k == "CXXMemberCallExpr":
+            me = n["inner"][0]
+            while me.get("kind") in ("ImplicitCastExpr", "ParenExpr"):
+                me = me["inner"][0]
+            if me.get("name") not in ("get", "operator bool", "has_value", "value"):
+                return True
+        return any(calls(c) for c in n.get("inner", []) if isinstance(c, dict))
+
+    if st.get("kind") == "ReturnStmt":
+        return not calls(st)
+    if st.get("kind") == "BinaryOperator" and st.get("opcode") == "=":
+        return not calls(st)
+    return False
+
+
 def enum_values(objs, enum_last):
     for o in objs:
         stack = [o]
@@ -107,6 +134,7 @@ def const_literal_expr(n):
 def translate(cfg, outdir):
     os.makedirs(outdir, exist_ok=True)
     tm = TypeMap(typedefs=cfg.get("typedefs"), class_alias=cfg.get("class_alias"), enums=cfg.get("enums"))
+    tm.scalar_classes = cfg.get("scalar_classes", {})
     lib = LibMap()
     em = Emitter(tm, lib, cfg)
     em.loop_macros = []
@@ -120,9 +148,14 @@ def translate(cfg, outdir):
     with ThreadPoolExecutor(max_workers=int(os.environ.get("VF_JOBS", "8"))) as ex:
         asts = list(ex.map(fetch, units))
     texts, meta = [], []
-    for u, objs in zip(units, asts):
+
+    def emit_unit(u, objs, accessor_only=False):
         last = u["name"].split("::")[-1]
         defs = find_defs(objs, last, u.get("sig"))
+        if accessor_only:
+            defs = [d for d in defs if is_accessor(d)]
+            if len(defs) != 1:
+                return False
         if not defs:
             raise ExtractionError("no definition found for %s in %s" % (u["name"], u["tu"]))
         if len(defs) > 1:
@@ -165,7 +198,34 @@ def translate(cfg, outdir):
         meta.append({"unit": u["name"], "cname": cname, "tu": u["tu"], "loops": unit.loops,
                      "ast_sha1": hashlib.sha1(json.dumps(node, sort_keys=True).encode()).hexdigest(),
                      "begin_offset": b.get("offset", b.get("expansionLoc", {}).get("offset")),
-                     "end_offset": e.get("offset", e.get("expansionLoc", {}).get("offset")), "line": line0})
+                     "end_offset": e.get("offset", e.get("expansionLoc", {}).get("offset")), "line": line0,
+                     "auto_accessor": accessor_only})
+        return True
+
+    for u, objs in zip(units, asts):
+        emit_unit(u, objs)
+    # inline accessors (single `return field;` / `field = value;`) called by the units are extracted as units of
+    # their own, recursively, from the same TU (DESIGN.md 3.2) — never hand-written
+    if cfg.get("auto_accessors", True):
+        tried = set()
+        while True:
+            todo = [(cn, d) for cn, d in em.callees.items()
+                    if cn not in em.unit_names and cn not in tried and "__" in cn and "::" in d and
+                    not cn.startswith("vf_") and not cn.endswith("__new") and "__ctor" not in cn and
+                    cn not in cfg.get("no_auto", [])]
+            if not todo:
+                break
+            tu = cfg.get("accessor_tu", units[0]["tu"])
+
+            def fetch2(x):
+                return astq.query(tu, x[1].split(" ")[0])
+
+            with ThreadPoolExecutor(max_workers=int(os.environ.get("VF_JOBS", "8"))) as ex:
+                res = list(ex.map(fetch2, todo))
+            for (cn, d), objs in zip(todo, res):
+                tried.add(cn)
+                qn = d.split(" ")[0]
+                emit_unit({"name": qn, "tu": tu, "cname": cn, "class": cn.rsplit("__", 1)[0]}, objs, True)
     # compile-time constants: value = the initialiser found in the TU (literals and arithmetic on literals only)
     const_init = {}
     for cn, (name, tu) in sorted(em.const_globals.items()):
@@ -267,7 +327,8 @@ def translate(cfg, outdir):
         f.write("\n".join(h) + "\n")
     c = []
     for cn, ct in sorted(em.globals.items()):
-        c.append("%s %s%s;" % (ct, cn, " = " + const_init[cn] if cn in const_init else ""))
+        if cn not in cfg.get("extern_globals", []):  # extern_globals are defined by the spec (e.g. generated tables)
+            c.append("%s %s%s;" % (ct, cn, " = " + const_init[cn] if cn in const_init else ""))
     c.append("int vf_exc;")
     for lt in em.lifted:
         c.append(lt)
